@@ -190,8 +190,13 @@ def _parse_call_name(text):
     segs = segs[:-1]
     if ci.T is None and segs:
         # look for an <impl ..> segment
-        for s in reversed(segs):
+        for idx_ in reversed(range(len(segs))):
+            s = segs[idx_]
             if s.startswith('<impl'):
+                # `Peekable::<impl Iterator<..>>::peek`: an `impl Trait` generic argument of the type before it, not an impl block
+                if idx_ > 0 and re.match(r'^[A-Z][A-Za-z0-9_]*$', segs[idx_ - 1]) and mirparse.scan_top_for(s[1:-1], ' for ') is None \
+                        and not s.startswith('<impl at '):
+                    continue
                 inner = s[1:-1][len('impl'):].strip()
                 k = mirparse.scan_top_for(inner, ' for ')
                 if k is not None:
